@@ -194,10 +194,21 @@ package cmd
 //@   requires logRecord != nil && len(logRecord.Hash) >= 1 && index != nil && store.wfIndex(index)
 //@   ensures [disk-only] {C08} sameExcept(fs, old(fs), store.indexPath(rootGoitPath))
 
+//@ pred objPayload(f, root, h) := payloadOf(zlibDec(content(f, object.objPath(root, h))))
+
+// [no-meta]: no staged path names a file of the object store (C17: nothing under .goit is ever staged)
 //@ func resetWorkingTree
 //@   returns err
 //@   modifies fs, $rdpos, $hashdata
 //@   requires index != nil && store.wfIndex(index)
+//@   requires [strict] store.strictEntries(index.Entries)
+//@   requires [no-meta] forall i int, j int :: 0 <= i && i < len(index.Entries) && 0 <= j && j < len(index.Entries) ==> object.workPath(rootGoitPath, string(index.Entries[j].Path)) != object.objPath(rootGoitPath, index.Entries[i].Hash)
+//@   ensures [bytes] {C08} err == nil ==> forall i int :: 0 <= i && i < len(index.Entries) ==> isFile(fs, object.workPath(rootGoitPath, string(index.Entries[i].Path))) && content(fs, object.workPath(rootGoitPath, string(index.Entries[i].Path))) == objPayload(old(fs), rootGoitPath, index.Entries[i].Hash)
+//@   ensures [untracked] {C08} forall q string :: (forall i int :: 0 <= i && i < len(index.Entries) ==> q != object.workPath(rootGoitPath, string(index.Entries[i].Path))) ==> ((isFile(old(fs), q) || isFile(fs, q)) ==> fs[q] == old(fs)[q])
+//@   loop 0:
+//@     invariant forall k int :: 0 <= k && k < it ==> isFile(fs, object.workPath(rootGoitPath, string(index.Entries[k].Path))) && content(fs, object.workPath(rootGoitPath, string(index.Entries[k].Path))) == objPayload(old(fs), rootGoitPath, index.Entries[k].Hash)
+//@     invariant forall i int :: 0 <= i && i < len(index.Entries) ==> ((isFile(old(fs), object.objPath(rootGoitPath, index.Entries[i].Hash)) || isFile(fs, object.objPath(rootGoitPath, index.Entries[i].Hash))) ==> fs[object.objPath(rootGoitPath, index.Entries[i].Hash)] == old(fs)[object.objPath(rootGoitPath, index.Entries[i].Hash)])
+//@     invariant forall q string :: (forall i int :: 0 <= i && i < len(index.Entries) ==> q != object.workPath(rootGoitPath, string(index.Entries[i].Path))) ==> ((isFile(old(fs), q) || isFile(fs, q)) ==> fs[q] == old(fs)[q])
 
 //@ func restoreIndex
 //@   returns err
